@@ -83,6 +83,11 @@ def isStaticDH (arg : String) : Bool :=
          "hs.dh.static.Agree(hs.dh.remoteEphemeral[:])", "c.Exchanger.Agree(hs.dh.remoteStatic[:])",
          "c.Exchanger.Agree(hs.dh.remoteEphemeral[:])"]
 
+/-- the hidden-mode timestamp condition as the translator renders it (`TS` = the 64-bit big-endian
+timestamp field, an unsigned number; `NOW` = `time.Now().Unix()`, a signed one).  Its meaning on
+64-bit machine integers is `Model/TimeWindow.lean`; any other condition is `Act.unknown`. -/
+def hiddenTimeCond : String := "TS > uint64(NOW) || NOW - int64(TS) > HiddenModeTimestampExpiration"
+
 def classify : HOp → Act
   | .lenGuard _ a b => .guard a b
   | .constCheck _ _ => .skip
@@ -116,7 +121,7 @@ def classify : HOp → Act
     -- any other assignment to the policy (or to the whole state that holds it) has no meaning here
     else if what.startsWith "set certVerify = " then .unknown
     else .skip
-  | .timeCheck enforced => .time enforced
+  | .timeCheck cond enforced => if cond = hiddenTimeCond then .time enforced else .unknown
   | .rekey => .skip
 
 /-- the field kinds a program consumes (reader) or produces (writer), in order -/
